@@ -13,7 +13,9 @@ from . import e2e
 RULE = ("cases = (estimator class, hyper-parameters, data set, match-tracking mode, epsilon, veto table, batching"
         " [, host SimpleARTMAP + class labels, hyper-parameter re-assignments between partial_fit batches]); "
         "a case is non-trivial when at least one step visited >= 2 categories or met a veto; distinct by hash of "
-        "(class, params, data, mode, eps, veto table [, host, labels, batching, re-assignment schedule])")
+        "(class, params, data, mode, eps, veto table [, host, labels, batching, re-assignment schedule]); "
+        "plus np.longdouble histories (Hypersphere / Ellipsoid / Gaussian / QuadraticNeuron, alone, as FusionART channels or as "
+        "SimpleARTMAP A-side) with near-tie samples found by bisection on category_choice, judged at full precision")
 
 
 GEN_THEOREMS = ["base_match_tracking", "dual_match_tracking", "topo_match_tracking", "cviart_match_tracking",
@@ -104,7 +106,285 @@ def _params_differ(have, want):
     return bad
 
 
+# ---------------------------------------------------------------------------------------------------------------
+# extended-precision histories.  np.longdouble data in [0, 1] are valid data; HypersphereART / EllipsoidART /
+# GaussianART / QuadraticNeuronART (also as a FusionART channel or as the A-side of a SimpleARTMAP) carry that precision
+# through weights, activations and match values.  "The highest activation" is then decided among the estimator's OWN
+# category_choice values at the precision they have: two activations that round to the same float64 are still different
+# numbers.  Everything below stays in np.longdouble (the main loop above casts to float64 for the Lean driver).
+
+LD = np.longdouble
+LD_WIDER = np.finfo(np.longdouble).eps < np.finfo(np.float64).eps
+LD_CLASSES = ["HypersphereART", "EllipsoidART", "GaussianART", "QuadraticNeuronART"]
+
+
+def _ld_rows(r, n, d):
+    """rows in [0, 1] whose entries genuinely use the extra mantissa bits"""
+    X = np.array([[LD(r.random()) + LD(r.random()) * LD(2.0) ** -54 for _ in range(d)] for _ in range(n)],
+                 dtype=LD).reshape(n, d)
+    return np.clip(X, LD(0), LD(1))
+
+
+def _ld_split(X):
+    """exact representation of longdouble data by two float64 arrays (64-bit mantissa = 53 + 11 bits)"""
+    X = np.asarray(X, dtype=LD)
+    hi = X.astype(np.float64)
+    lo = (X - hi.astype(LD)).astype(np.float64)
+    return hi, lo
+
+
+def _ld_rule(m, x, op, mode, eps, veto):
+    """C01's rule evaluated with the estimator's public kernels at the precision they return: candidates in order of
+    decreasing activation (oldest first among equals), the first one that passes the vigilance test and is not vetoed
+    wins; a vetoed vigilance-passing candidate moves the threshold as the mode prescribes for the rest of this search.
+    Returns (winner or None = new category, activations, test results of the visited categories)"""
+    W = list(m.W)
+    params = m.params if veto is None else dict(m.params)
+    T, C = [], []
+    for k, w in enumerate(W):
+        if mode == "MT~" and veto is not None and veto[k]:
+            T.append(LD("nan"))
+            C.append(None)
+            continue
+        t, ch = m.category_choice(x, w, params=params)
+        T.append(t)
+        C.append(ch)
+    live = [k for k in range(len(W)) if not np.isnan(T[k])]
+    passed = {}
+    while live:
+        c = live[0]
+        for k in live[1:]:
+            if T[k] > T[c]:
+                c = k
+        live.remove(c)
+        mb, _ = m.match_criterion_bin(x, W[c], params=params, cache=C[c], op=op)
+        passed[c] = bool(mb)
+        vetoed = veto is not None and mode != "MT~" and veto[c]
+        if mb and not vetoed:
+            return c, T, passed
+        if mb and vetoed:
+            if mode == "MT1":
+                return None, T, passed
+            M = m.match_criterion(x, W[c], params=params, cache=C[c])[0]
+            params["rho"] = M + eps if mode == "MT+" else (M - eps if mode == "MT-" else M)
+    return None, T, passed
+
+
+def _ld_passes(m, x, k, op):
+    """the estimator's own vigilance test of category k for sample x, at the configured vigilance"""
+    _, ch = m.category_choice(x, m.W[k], params=m.params)
+    return bool(m.match_criterion_bin(x, m.W[k], params=m.params, cache=ch, op=op)[0])
+
+
+def _ld_near_tie(m, r, rows, lab, op, tries=5):
+    """a valid sample at which a NEWER category's activation exceeds an OLDER one's by less than the float64 spacing
+    while both pass the vigilance test: bisection, on the estimator's own category_choice, along the segment between
+    a row learned by the older and a row learned by the newer category"""
+    byc = {}
+    for k, c in enumerate(lab):
+        byc.setdefault(int(c), []).append(k)
+    cats = sorted(byc)
+    if len(cats) < 2:
+        return None
+    for _ in range(tries):
+        i, j = sorted(r.sample(cats, 2))
+        p, q = rows[r.choice(byc[i])], rows[r.choice(byc[j])]
+
+        def at(s):
+            return np.clip(p + s * (q - p), LD(0), LD(1))
+
+        def tt(s):
+            x = at(s)
+            return (m.category_choice(x, m.W[i], params=m.params)[0], m.category_choice(x, m.W[j], params=m.params)[0])
+        lo, hi = LD(0), LD(1)
+        ti, tj = tt(lo)
+        if not ti > tj:
+            continue
+        ti, tj = tt(hi)
+        if not tj > ti:
+            continue
+        for _it in range(90):
+            mid = lo + (hi - lo) / 2
+            if mid == lo or mid == hi:
+                break
+            ti, tj = tt(mid)
+            if tj > ti:
+                hi = mid
+                if float(tj) == float(ti):
+                    x = at(mid)
+                    if _ld_passes(m, x, i, op) and _ld_passes(m, x, j, op):
+                        return x, i, j
+                    break
+            else:
+                lo = mid
+    return None
+
+
+def longdouble_histories(ctx):
+    import operator
+    from copy import deepcopy
+    cov = ctx.cov
+    if not LD_WIDER:
+        cov.hit("longdouble:not-wider-than-float64-on-this-platform")
+        return
+    Nld = ctx.scale(160, 1600)
+    for i in range(Nld):
+        r = gen.rng_for(ctx.seed, "C01-longdouble", i)
+        kind = ["elem", "elem", "host", "fusion"][i % 4]
+        mode = MODES[(i // 4) % 5]
+        eps = r.choice([0.0, 2.0 ** -20, 1e-10, 0.125])
+        op = operator.gt if mode in ("MT0", "MT~") else operator.ge
+        d = r.randint(1, 3)
+        n = r.randint(4, 14)
+        if kind == "fusion":
+            k = r.randint(1, 3)
+            chans = [r.choice(LD_CLASSES + ["FuzzyART"]) for _ in range(k)]
+            if all(c == "FuzzyART" for c in chans):
+                chans[r.randrange(k)] = r.choice(LD_CLASSES)
+            ds = [r.randint(1, 2) for _ in range(k)]
+            gam = {1: [1.0], 2: r.choice([[0.5, 0.5], [0.25, 0.75]]), 3: r.choice([[0.5, 0.25, 0.25], [0.25, 0.25, 0.5]])}[k]
+            spec = {"cls": "FusionART", "modules": [specs.elem_spec(r, c, dd) for c, dd in zip(chans, ds)],
+                    "gamma_values": gam, "channel_dims": [specs.width(c, dd) for c, dd in zip(chans, ds)]}
+            blocks = []
+            for c, dd in zip(chans, ds):
+                B = _ld_rows(r, n, dd)
+                blocks.append(np.hstack([B, LD(1) - B]) if c == "FuzzyART" else B)
+            X = np.hstack(blocks)
+            cls = "FusionART"
+        else:
+            cls = LD_CLASSES[((i // 4) if kind == "host" else 2 * (i // 4) + i % 4) % len(LD_CLASSES)]
+            spec = specs.elem_spec(r, cls, d)
+            X = _ld_rows(r, n, d)
+        host = kind == "host"
+        tagc = f"SimpleARTMAP({cls})" if host else cls
+        y = gen.labels(r, n, k=r.choice([1, 2, 2, 3])) if host else None
+        try:
+            with quiet():
+                m = make(spec)
+                m_host = None
+                if host:
+                    from artlib import SimpleARTMAP
+                    m_host = SimpleARTMAP(m)
+        except Exception as e:
+            ctx.issue("violation", f"{cls}.__init__:{exc_enum(e)}", f"constructor raised {e!r}", {"spec": spec})
+            continue
+        recs = []        # one per presented sample: dict(x, want, got, T, passed, veto, before, after)
+        orig_step = m.step_fit
+
+        def framed(x, match_reset_func=None, match_tracking="MT+", epsilon=0.0, _m=m, _o=orig_step):
+            rec = {"x": np.array(x, copy=True), "want": "?", "veto": None}
+            W0 = list(getattr(_m, "W", []))
+            rec["before"] = deepcopy(W0)
+            if W0:
+                try:
+                    with np.errstate(all="ignore"):
+                        veto = None
+                        if match_reset_func is not None:
+                            veto = [not match_reset_func(x, w, c_, params=_m.params, cache=None) for c_, w in enumerate(W0)]
+                        rec["veto"] = veto
+                        rec["want"], rec["T"], rec["passed"] = _ld_rule(_m, x, op, match_tracking, epsilon, veto)
+                        w_, T_ = rec["want"], rec["T"]
+                        # the situation of interest: an OLDER unvetoed category that also passes the vigilance test has an
+                        # activation below the winner's by less than float64 resolution
+                        rec["subulp"] = w_ is not None and any(
+                            T_[w_] > T_[k] and float(T_[k]) == float(T_[w_]) and not (veto and veto[k])
+                            and _ld_passes(_m, x, k, op) for k in range(w_))
+                except Exception as e:   # the estimator's kernels raised: the training call below reports it
+                    rec["want"] = "?"
+                    rec["kernel-exc"] = repr(e)
+            else:
+                rec["want"], rec["T"], rec["passed"] = None, [], {}
+            recs.append(rec)
+            c = _o(x, match_reset_func=match_reset_func, match_tracking=match_tracking, epsilon=epsilon)
+            rec["got"] = int(c)
+            rec["after"] = deepcopy(list(_m.W))
+            return c
+        object.__setattr__(m, "step_fit", framed)
+        stream, ys = [], []
+
+        def replay(step=None):
+            S = np.array(stream, dtype=LD)
+            hi, lo = _ld_split(S)
+            return {"spec": spec, "host": "SimpleARTMAP" if host else None, "mode": mode, "eps": eps, "dtype": "longdouble",
+                    "X_hi": hi, "X_lo": lo, "X": "np.longdouble(X_hi) + np.longdouble(X_lo), presented row by row through partial_fit",
+                    "y": ys if host else None, "step": step}
+
+        def present(B, yB=None):
+            for x in B:
+                stream.append(np.array(x, dtype=LD))
+            if host:
+                ys.extend(int(v) for v in yB)
+            with quiet():
+                if host:
+                    m_host.partial_fit(B, np.array(yB, dtype=int), match_tracking=mode, epsilon=eps)
+                else:
+                    m.partial_fit(B, match_tracking=mode, epsilon=eps)
+        try:
+            parts = gen.compositions(r, n)
+            a0 = 0
+            for sz in parts:
+                present(X[a0:a0 + sz], None if y is None else y[a0:a0 + sz])
+                a0 += sz
+            cov.hit(f"longdouble:history:{kind}:{cls}")
+            for _p in range(3):
+                pr = _ld_near_tie(m, r, [rc["x"] for rc in recs], [rc["got"] for rc in recs], op)
+                if pr is None:
+                    continue
+                x, ci, cj = pr
+                yp = None
+                if host:
+                    yp = [m_host.map[r.choice([cj, cj, ci])]]
+                cov.hit(f"longdouble:near-tie-probe:newer-category-ahead-by-less-than-a-float64-ulp:{kind}:{cls}")
+                present(x[None, :], yp)
+        except Exception as e:
+            ctx.issue("violation", f"{tagc}.fit:longdouble:{exc_enum(e)}",
+                      f"training raised {e!r} on valid np.longdouble data (mode {mode}, eps {eps})", replay(len(recs) - 1))
+            cov.case(("longdouble", tagc, repr(spec), X.tolist(), mode, eps, None if y is None else y.tolist()), False)
+            continue
+        # ---- oracle: the statement, at the precision of the estimator's own activations
+        nontrivial = False
+        for si, rc in enumerate(recs):
+            if "got" not in rc or rc["want"] == "?":
+                cov.hit("longdouble:rule-not-evaluable:" + ("kernel-raised" if "kernel-exc" in rc else "step-did-not-return"))
+                continue
+            if rc["veto"] and mode != "MT~" and any(ok and rc["veto"][k] for k, ok in rc["passed"].items()):
+                cov.hit(f"longdouble:veto-then-track:{mode}")
+            before, after, got, want, T = rc["before"], rc["after"], rc["got"], rc["want"], rc["T"]
+            nb = len(before)
+            exp = nb if want is None else want
+            if len(rc["passed"]) >= 2 or (rc["veto"] and any(rc["veto"])):
+                nontrivial = True
+            if rc.get("subulp"):
+                cov.hit(f"longdouble:winner-decided-below-float64-resolution:{kind}:{cls}")
+            if got != exp:
+                ctx.issue("violation", f"{tagc}:longdouble:not-best-vigilance-passing-category",
+                          f"step {si}: np.longdouble sample assigned to {got} of {nb} categories; the estimator's own category_choice / "
+                          f"match_criterion_bin values give {'a new category' if want is None else want} as the unvetoed vigilance-"
+                          f"passing category of highest activation (activations {[repr(t) for t in T]}, vigilance tests "
+                          f"{rc['passed']}, vetoed {rc['veto']}, mode {mode}, eps {eps}); activations that differ below float64 "
+                          f"resolution are still different", replay(si))
+                break
+            changed = [k for k in range(min(nb, len(after))) if not np.array_equal(before[k], after[k], equal_nan=True)]
+            if len(after) != nb + (1 if got == nb else 0) or any(k != got for k in changed):
+                ctx.issue("violation", f"{tagc}:longdouble:frame",
+                          f"step {si}: label {got}, |W| {nb}->{len(after)}, weights changed {changed}", replay(si))
+                break
+            if got == nb:
+                try:
+                    with quiet():
+                        wn = m.new_weight(rc["x"], m.params)
+                    if not np.array_equal(np.asarray(wn), np.asarray(after[-1]), equal_nan=True):
+                        ctx.issue("violation", f"{tagc}:longdouble:new-not-from-sample",
+                                  f"step {si}: appended weight differs from new_weight(x)", replay(si))
+                        break
+                except Exception:
+                    pass
+            cov.hit("oracle:longdouble-winner-from-public-kernels-at-full-precision")
+        cov.case(("longdouble", tagc, repr(spec), X.tolist(), mode, eps, None if y is None else y.tolist()), nontrivial)
+
+
 def run(ctx):
+    longdouble_histories(ctx)
     cov = ctx.cov
     N = ctx.scale(900, 9000)
     nmax = ctx.scale(24, 120)
